@@ -412,7 +412,7 @@ func stdlibEffects(f *ssa.Function) stdEffect {
 	switch n {
 	case "strings.HasPrefix", "strings.HasSuffix", "strings.Contains", "strings.Index", "strings.Split", "strings.SplitN",
 		"strconv.Atoi", "strconv.ParseUint", "strconv.ParseInt", "strconv.ParseBool",
-		"time.Time.Equal", "time.Time.Before", "time.Time.After", "time.Time.IsZero", "bytes.Compare", "bytes.Equal",
+		"time.Time.Equal", "time.Time.Before", "time.Time.After", "time.Time.IsZero", "bytes.Compare", "bytes.Equal", "reflect.DeepEqual",
 		"json.Marshal", "json.MarshalIndent", "url.Parse", "url.URL.Query", "url.ParseQuery":
 		return allocOnly
 	case "sort.Strings":
